@@ -372,10 +372,7 @@ func checkC06(ctx *Ctx) *Result {
 		reportMismatches(r, "R6.5", val, vf, func(m mismatch) bool { return true }, "per-element behaviour differs from the documented, order-free table")
 	}
 	r.rule("R6.6", "rendering is read-only: nothing reachable from Config()/newConfig writes memory of the configuration being rendered (a second Config() must see the same state)", 1)
-	if ncf := p.Func(pkgRoot, "newConfig"); ncf != nil {
-		checkWrites(ctx, r, ctx.WE(), "R6.6", ncf, func(rt Root) bool { return rt.Kind == RLocal || rt.Kind == RConst },
-			"modifies the configuration while rendering it")
-	}
+	renderingReadOnly(ctx, r, "R6.6")
 	if te := p.Func(pkgOrigins, "(*Tree).Elems"); te != nil {
 		x3 := p.NewExec(p.RadixPolicy)
 		ps := x3.Summarize(te)
@@ -414,6 +411,22 @@ func checkC06(ctx *Ctx) *Result {
 	}, nil)
 	r.share(checkC16(ctx), map[string]string{"R16.2": "successful debug-off preflights carry only constants and request-supplied tokens; `*,authorization` only under asterisk ∧ allowAuthorization ∧ ¬credentialed — the case Config() keeps `Authorization` for"}, nil)
 	return r
+}
+
+// renderingReadOnly: nothing reachable from Config()/newConfig writes memory
+// other than its own fresh allocations.
+func renderingReadOnly(ctx *Ctx, r *Result, rule string) {
+	n := 0
+	for _, name := range []string{"newConfig", "(*Middleware).Config"} {
+		if f := ctx.P.Func(pkgRoot, name); f != nil {
+			n++
+			checkWrites(ctx, r, ctx.WE(), rule, f, func(rt Root) bool { return rt.Kind == RLocal || rt.Kind == RConst },
+				"modifies the configuration while rendering it")
+		}
+	}
+	if n == 0 {
+		r.undecided(rule, "Config()", "anchors not found")
+	}
 }
 
 func tri(a, b int) int {
